@@ -57,6 +57,11 @@ def config_st():
         'style': st.sampled_from(['fn3', 'fn2', 'class']),
         'legacy_disc': st.booleans(),
         'coro': st.booleans(),
+        # something is registered on the catch-all namespace that is
+        # responsible for nothing in these histories (an ordinary event
+        # handler / a class-based namespace with one event method): it must
+        # not change which namespaces are served
+        'star_decoy': st.sampled_from([None, None, 'fn', 'cls']),
         'decisions': st.lists(decision_st(), min_size=1, max_size=8)})
 
 
@@ -144,6 +149,17 @@ def build(case, w, log):
         NS.on_disconnect = od
         for ns in HANDLED:
             sio.register_namespace(NS(ns))
+    decoy = case.get('star_decoy')
+    if decoy == 'fn':
+        sio.on('never sent', wrap(lambda *a: None), namespace='*')
+    elif decoy == 'cls' and not (style == 'class' and
+                                 case['nsconf'] == 'star'):
+        base = socketio.AsyncNamespace if aio else socketio.Namespace
+
+        class Decoy(base):
+            def on_never_sent(self, *a):
+                pass
+        sio.register_namespace(Decoy('*'))
     return NO
 
 
@@ -184,7 +200,9 @@ def refusal_payload(d):
 
 RULE = ('Model-based stateful testing over configurations always_connect x '
         'namespaces {default, list, "*"} x handlers {2-arg / 3-arg functions, '
-        'class-based, catch-all namespace} x legacy 1-arg disconnect handlers '
+        'class-based, catch-all namespace} x decoy registrations on the '
+        'catch-all namespace that are responsible for nothing x legacy '
+        '1-arg disconnect handlers '
         'x both servers: generated histories of CONNECT(ns, auth) - incl. '
         'unserved and repeated namespaces -, client DISCONNECT, '
         'server.disconnect, transport loss, broadcasts and to-sid emits, with '
